@@ -36,9 +36,11 @@ def readerSuffix (t : Ty) (data : Bytes) (o : C12.DRes) : String :=
     let kinds : List (String × C12.RKind) :=
       [("um", .buffer), ("rdr", .buffer)] ++
         (if C12.chunkingObserved t then [("half", .half), ("one", .one), ("derr", .dataErr)] else [])
-    kinds.foldl (fun acc (name, k) =>
+    let rs := kinds.foldl (fun acc (name, k) =>
       let x := viaOut t (C12.decodeR k t data)
       if x = base then acc else acc ++ s!" {name}={x}") ""
+    let d := viaOut t (C12.decodeDG t data)
+    if d = base then rs else rs ++ s!" dirty={d}"
 
 def step (line : String) : String :=
   match words line with
@@ -59,6 +61,7 @@ def step (line : String) : String :=
       else
         let kf := if o.zf then "bytes-short-read"
                   else if o.req > data.length + 1024 then "bytes-alloc"
+                  else if (rs.splitOn " dirty=").length > 1 then "dirty-dst"
                   else if rs ≠ "" then "bytes-chunked-read" else "none"
         s!"{model}\tspec={spec}\tkf={kf}"
     | _, _ => "bad-op"
